@@ -7,7 +7,7 @@
    interleaving of the visible events of every schedule. *)
 From Oras Require Import Base.Prelude Generated.GC01 Model.CopySpec Model.CopyTop Model.CopyOpt
   Model.CopyCancel Model.CopyLinks Proofs.CopySpec Proofs.CopyAcct Proofs.CopyOpt Proofs.CopyCancel
-  Proofs.CopyLinks Proofs.CopyCode Model.CopyBytes Proofs.CopyBytes.
+  Proofs.CopyLinks Proofs.CopyCode Model.CopyBytes Proofs.CopyBytes Model.CopyExt Proofs.CopyExt.
 Local Open Scope nat_scope.
 
 (* Success => every node reachable from the root (foreign layers cut) is in the
@@ -440,3 +440,42 @@ Example C01_example_bytes :
   exists bs, brun digest src [PuE 0 false POk; PuE 1 false POk] [[1%N]; [2%N]] [] = Some bs /\
              bs = [(1, [2%N]); (0, [1%N])].
 Proof. exact bytes_example. Qed.
+
+(* ---- ExtendedCopy end to end (Model/CopyExt.v): the walk from every root above the node, then dst.Tag(node, dstRef) ---- *)
+
+(* success => the reference is on the node and everything reachable from every root is in the destination *)
+Theorem C01_extended_copy :
+  forall (g : graph) (c : cfg) (tgt : node) (d0 : list node) (tr : list event) (st : state),
+    closed_nodes g d0 -> mt_consistent g ->
+    xaccepts g c tgt d0 tr = Some st -> returned st = Some true ->
+    tag st = Some tgt /\
+    forall r n, In r (c_root c :: c_xroots c) -> reach g r n -> has g (dst st) n = true.
+Proof. exact extended_copy_lemma. Qed.
+Print Assumptions C01_extended_copy.
+
+(* in particular the node's own graph, whenever some root reaches the node *)
+Theorem C01_extended_copy_node_graph :
+  forall (g : graph) (c : cfg) (tgt : node) (d0 : list node) (tr : list event) (st : state) (r : node),
+    closed_nodes g d0 -> mt_consistent g ->
+    xaccepts g c tgt d0 tr = Some st -> returned st = Some true ->
+    In r (c_root c :: c_xroots c) -> reach g r tgt ->
+    forall n, reach g tgt n -> has g (dst st) n = true.
+Proof. exact extended_copy_node_graph. Qed.
+Print Assumptions C01_extended_copy_node_graph.
+
+(* the reference is written once, last, after the walk of all roots returned success *)
+Theorem C01_extended_copy_tag_last :
+  forall (g : graph) (c : cfg) (tgt : node) (d0 : list node) (tr : list event) (st : state),
+    xaccepts g c tgt d0 tr = Some st -> returned st = Some true ->
+    exists walk st1, accepts g c d0 (walk ++ [Ret true]) = Some st1 /\ returned st1 = Some true /\
+                     dst st = dst st1 /\ tr = walk ++ [TagB tgt; TagE tgt; Ret true].
+Proof. exact extended_copy_tag_last. Qed.
+Print Assumptions C01_extended_copy_tag_last.
+
+(* a run that does not return success leaves the reference untouched *)
+Theorem C01_extended_copy_failure_untagged :
+  forall (g : graph) (c : cfg) (tgt : node) (d0 : list node) (tr : list event) (st : state),
+    c_mode c = MGraph ->
+    xaccepts g c tgt d0 tr = Some st -> returned st <> Some true -> tag st = None.
+Proof. exact extended_copy_failure_untagged. Qed.
+Print Assumptions C01_extended_copy_failure_untagged.
